@@ -19,14 +19,16 @@ import gfpx_oracle as O  # noqa: E402
 from mpyc import finfields  # noqa: E402
 
 LEVEL = 'proof'
-LEAN_MODULES = ['MpycV.Props.C24']
-LEAN_NAMESPACES = ['MpycV.C24']
+LEAN_MODULES = ['MpycV.Props.C24', 'MpycV.PropsGen.C24Src']
+LEAN_NAMESPACES = ['MpycV.C24', 'MpycV.C24Src']
 REQUIRED_THEOREMS = [
     'is_irreducible_correct', 'is_irreducible_iff_no_factor', 'reducible_detected', 'bin_is_irreducible_correct',
     'next_irreducible_spec', 'find_irreducible_spec', 'find_irreducible_degree', 'find_irreducible_one',
     'skipped_multiples_not_irreducible', 'search_terminates',
     'bin_next_irreducible_spec', 'bin_find_irreducible_spec', 'GF_accepts_iff', 'bin_GF_accepts_iff',
     'table_p2_deg6', 'table_p3_deg3', 'table_p5_deg2', 'table_p7_deg2', 'table_bin_deg6',
+    # source tie (PropsGen/C24Src.lean): _is_irreducible / _next_irreducible generated from the current gfpx.py = model
+    'is_irreducible_src_eq', 'next_irreducible_src_eq', 'is_irreducible_src_correct',
 ]
 
 RULE = (
@@ -56,6 +58,7 @@ ASSUMPTIONS = [
     'Python ints/lists/random and harness/gfpx_oracle.py are correct; random part is a seeded sample',
 ]
 TRUSTED = ['harness/gfpx_oracle.py (trial division, sieve, Rabin test)', 'lean/Drv/GFpX.lean driver',
+           'harness/py2lean_gfpx.py: the Python->Lean translation rules listed in its docstring (see props/c23.py)',
            'native compilation (lean -c + leanc) of the driver, cross-checked against the interpreter on a probe '
            'in every run (see props/c23.py prepare_driver)']
 
@@ -354,8 +357,20 @@ def run(ctx):
     ctx.note(f'{len(jobs)} jobs + xgf correspondence')
 
 
+def generate(ctx):
+    """source translator (shared with C23): current mpyc/gfpx.py -> lean/MpycV/Generated/GfpxSrc.lean"""
+    B.generate(ctx)
+
+
 def search(ctx):
-    """Bigger oracle-only search on the real code (no Lean driver)."""
+    """Bigger oracle-only search on the real code (no Lean driver); when the source tie broke, the changed methods are
+    reported and the quick domain is swept first without the driver."""
+    changed, reach, ops = B.affected_ops()
+    if changed:
+        ctx.note('source tie: changed methods ' + ', '.join(changed) + '; reached: ' + ', '.join(reach))
+    B.run_jobs(ctx, build_jobs(ctx, nodriver=True), __name__)
+    if ctx.violations:
+        return
     jobs = []
     for p, md, mdn in ((2, 24, 16), (3, 16, 10), (5, 12, 8), (7, 10, 7), (11, 12, 8), (13, 10, 6), (31, 8, 5),
                        (101, 10, 5), (257, 6, 4)):
